@@ -25,7 +25,8 @@ EXTENDS Integers, Sequences, FiniteSets, TLC
 
 CONSTANTS
     Headers,      \* sequence of transaction headers [date, flag, payee, narration]
-    Pool,         \* sequence of posting templates [txn |-> index into Headers, account, lot]
+    Pool,         \* sequence of posting templates [txn |-> index into Headers, account, lot, pflag];
+                  \*   pflag: the flag the posting carries itself, <<>> when it has none (the usual case)
     MaxPostings,  \* ledgers = sequences of <= MaxPostings pool items, transactions in order
     Shapes,       \* sequence of BALANCES / JOURNAL statements
     DirPool,      \* sequence of abstract directives [id, type, date, flag, payee, narration, accounts]
@@ -34,6 +35,7 @@ CONSTANTS
     KnownStrings, \* memoisation only: strings / patterns whose order and matches are tabulated once at start-up
     KnownPats,    \*   (any other argument is computed directly by the same operators)
     Variant       \* "shipped" | "no_where" | "order_by_name" | "balance_raw" | "print_keeps_null" | "journal_no_match"
+                  \* | "flag_of_posting"
 
 \* TLC evaluates a constant that the configuration overrides by a definition at EVERY reference; the aliases
 \* below are ordinary constant-level definitions, which TLC evaluates once at start-up
@@ -128,19 +130,28 @@ InvAdd(inv, l) ==
    A row is a record; optional string attributes are <<>> (NULL) or <<s>>.
      directive rows : type, date (yyyymmdd), flag, payee, narration, accounts (set)
      posting rows   : the same attributes of the parent transaction + account, lot, currency (of the raw position)
+                      + pflag, the flag of the posting itself.  A posting and its transaction BOTH have a flag: the
+                      register, and the column `flag` in any expression, mean the transaction's (`posting_flag` is the
+                      posting's own, NULL for most postings)
    Expressions:  [k |-> "true"]                                     (clause absent)
                  [k |-> "cmp", col, op, v, lit]     col in year date type flag payee narration account currency number
+                                                            posting_flag
                  [k |-> "match", col, p]            col ~ pattern
                  [k |-> "hasacct", p]               has_account(pattern)
                  [k |-> "and" | "or", l, r]   [k |-> "not", e]
    Values "T" "F" "N" (SQL three-valued logic; a row is selected iff the value is "T"). *)
 TrueE == [k |-> "true"]
+\* mechanism: how the column `flag` of a row is resolved.  Directive rows have one flag.  A posting row has two objects
+\* behind it, the posting and its parent transaction: the code reads `flag` from the transaction.  The broken variant
+\* looks on the posting first and falls back to the transaction when the posting "does not carry" the attribute.
+FlagCol(r) == IF Variant = "flag_of_posting" /\ "pflag" \in DOMAIN r /\ r.pflag # <<>> THEN r.pflag ELSE r.flag
 ColVal(r, c) ==
     CASE c = "year" -> <<r.date \div 10000>>
       [] c = "month" -> <<(r.date \div 100) % 100>>
       [] c = "date" -> <<r.date>>
       [] c = "type" -> <<r.type>>
-      [] c = "flag" -> r.flag
+      [] c = "flag" -> FlagCol(r)
+      [] c = "posting_flag" -> r.pflag
       [] c = "payee" -> r.payee
       [] c = "narration" -> r.narration
       [] c = "account" -> <<r.account>>
@@ -179,7 +190,7 @@ PostingRows(led) ==
             h == HeadersV[p.txn]
         IN [type |-> "transaction", date |-> h.date, flag |-> h.flag, payee |-> h.payee, narration |-> h.narration,
             accounts |-> {PoolV[led[j]].account : j \in {j \in 1..Len(led) : PoolV[led[j]].txn = p.txn}},
-            account |-> p.account, lot |-> p.lot, currency |-> p.lot[1]]]
+            account |-> p.account, lot |-> p.lot, currency |-> p.lot[1], pflag |-> p.pflag]]
 DirRows(led) == [i \in 1..Len(led) |-> DirPoolV[led[i]]]
 
 \* (operators with a parameter: TLC evaluates parameterless constant definitions at start-up even when unused)
@@ -206,7 +217,8 @@ BalancesReport(f, sel) ==
 BalancesMeaning(s, rows) ==
     BalancesReport(s.f, Selected(rows, LAMBDA r : Eval3(s.from.expr, r) = "T" /\ Eval3(s.where, r) = "T"))
 
-\* JOURNAL a AT f FROM from : register of the postings whose account matches a, in ledger order, with running balance
+\* JOURNAL a AT f FROM from : register of the postings whose account matches a, in ledger order, with running balance;
+\* date, flag, payee and narration are those of the transaction the posting belongs to
 JournalReport(f, sel) ==
     [k \in DOMAIN sel |->
         <<sel[k].date, sel[k].flag, sel[k].payee, sel[k].narration, sel[k].account, ApplyF(f, sel[k].lot),
@@ -303,7 +315,7 @@ MaxWidth(s, n) == IF s = <<>> THEN <<>> ELSE IF Len(s[1]) <= n THEN s ELSE <<"<s
 RECURSIVE EvalT(_, _, _)
 EvalT(t, r, bal) ==
     CASE t.k = "int" -> t.v
-      [] t.k = "col" -> (CASE t.n = "date" -> r.date [] t.n = "flag" -> r.flag [] t.n = "payee" -> r.payee
+      [] t.k = "col" -> (CASE t.n = "date" -> r.date [] t.n = "flag" -> FlagCol(r) [] t.n = "payee" -> r.payee
                            [] t.n = "narration" -> r.narration [] t.n = "account" -> r.account
                            [] t.n = "position" -> r.lot [] t.n = "balance" -> bal)
       [] t.k = "fn" ->
